@@ -1,4 +1,5 @@
 """C09 — operator <-> matrix conversions agree with the operator's definition."""
+import copy
 from fractions import Fraction
 
 from .. import common
@@ -6,11 +7,19 @@ from ..common import rat, unrat
 
 PROP = "C09"
 RULE = ("seeded random Pauli sums (Y-heavy, gapped supports, constants, zero and duplicate terms, complex "
-        "coefficients k/8+(l/8)i, shuffled dict order) at widths width..width+2 for get_sparse_operator / "
-        "hermitian_conjugated+is_hermitian / reverse_qubit_order / get_expectation_value, random Gaussian-rational "
-        "2^n x 2^n matrices (n<=3) for get_pauliop_from_matrix, plus a malformed stream (n < width, non-square, "
-        "non power of two); non-trivial: some term has a Y and a gap in its support, or n > width; for matrices: "
-        "size >= 4 and not symmetric (Y components present); distinct = distinct canonical JSON of the case")
+        "coefficients k/8+(l/8)i, shuffled dict order; flavours: Z-only / X-only / Y-only / full-width terms / int and "
+        "numpy-scalar coefficients / coefficients scaled by 2^12 or 2^-10) at widths width..width+2 (a few at 6-7 qubits) "
+        "for get_sparse_operator / hermitian_conjugated+is_hermitian (operator, dense and sparse matrix inputs) / "
+        "reverse_qubit_order / get_expectation_value + expectation (vector, column vector, density matrix), random "
+        "Gaussian-rational 2^n x 2^n matrices (n<=3, a few n=4; dense, real, int, sparse, hermitian, diagonal, single "
+        "Pauli string, single entry, antisymmetric, permutation, scaled; given as lists, ndarray, list of row arrays) "
+        "for get_pauliop_from_matrix, a malformed stream (n < width, non-square, non power of two); SESSIONS: multi-step "
+        "histories of these calls on the SAME long-lived operators / wavefunctions / matrices (twin calls differing in "
+        "one argument, sibling operators differing in one component, equal-but-not-identical and term-sharing operators, "
+        "edits of coefficient / terms / amplitudes / matrix entries between calls, poisoned results, objects replaced in "
+        "place, rejected calls), every step judged against the current value of the objects; WIDE: registers of 11-13 "
+        "qubits with multi-digit qubit indices; non-trivial: some term has a Y and a gap in its support, or n > width; "
+        "for matrices: size >= 4 and not symmetric; sessions: >= 2 calls; distinct = distinct canonical JSON of the case")
 TRUSTED = [
     "scipy.sparse.kron is the Kronecker product (a scalar first factor acts as a 1x1 matrix) and stores no explicit zeros",
     "csc.tocoo().data lists the stored values column by column; csc.nonzero() lists (row, col) in row-major order",
@@ -22,15 +31,21 @@ TRUSTED = [
     "modulus <= 1e-8 is dropped by simplify and coefficients closer than allclose's tolerance are identified",
     "CPython set lookup = equal hash then ==; 64-bit hash collisions of distinct (rounded coefficient, frozenset) ignored",
     "float arithmetic is exact on the dyadic inputs compared exactly with the model; other inputs use 1e-9",
+    "the model is a pure function of the arguments: in a session each call is answered by the model from the CURRENT value "
+    "of the objects (the harness's own book-keeping of the edits it made through public attributes: PauliTerm.coefficient, "
+    "PauliSum.terms, Wavefunction.__setitem__, entries of the caller's matrix)",
 ]
 ASSUMPTIONS = [
     "PauliTerm._ops is a dict: qubit indices of one term are distinct (Term.WF in the theorems)",
     "dec2bin(number, length) is only called with number < 2**length (true at every call site)",
     "the wavefunction has 2**n amplitudes (enforced by the Wavefunction constructor)",
+    "an operator / wavefunction / matrix denotes what its public attributes currently say (PauliTerm.coefficient and "
+    "PauliSum.terms are public, assignable attributes; Wavefunction supports norm-preserving item assignment)",
 ]
 
 TOL = 1e-9
 LETTERS = "XYZ"
+SINGLE_KINDS = ("sparse", "hc", "from_matrix", "reverse", "expect")
 
 
 # --------------------------------------------------------------------------- building real objects
@@ -51,6 +66,12 @@ def _coef(t):
         return int(re)
     if ty == "f" and im == 0:
         return re
+    if ty == "nf" and im == 0:
+        import numpy as np
+        return np.float64(re)
+    if ty == "nc":
+        import numpy as np
+        return np.complex128(complex(re, im))
     return complex(re, im)
 
 
@@ -79,14 +100,53 @@ def _canon_sum(op):
     return [_canon_term(t) for t in op.terms]
 
 
+def _canon_spec(t):
+    """what _canon_term reads from an untouched term built from the spec t"""
+    return {"ops": sorted([[int(q), str(p)] for q, p in t["ops"]]),
+            "c": [rat(Fraction(float(unrat(t["c"][0])))), rat(Fraction(float(unrat(t["c"][1]))))]}
+
+
+def _amp_complex(a):
+    if len(a) == 2:
+        return complex(float(unrat(a[0])), float(unrat(a[1])))
+    return common.cyc_to_complex(a)
+
+
 def _psi_complex(psi):
-    out = []
-    for a in psi:
-        if len(a) == 2:
-            out.append(complex(float(unrat(a[0])), float(unrat(a[1]))))
+    return [_amp_complex(a) for a in psi]
+
+
+def _phase(a, u):
+    """amplitude (Gaussian pair or Cyc8 4-list) times the unit u in {'-1','i','-i'}, exactly"""
+    neg = lambda x: rat(-unrat(x))  # noqa: E731
+    if len(a) == 2:
+        re, im = a
+        return {"-1": [neg(re), neg(im)], "i": [neg(im), re], "-i": [im, neg(re)]}[u]
+    p, q, r, s = a  # p + q z + r z^2 + s z^3, i = z^2, z^4 = -1
+    return {"-1": [neg(p), neg(q), neg(r), neg(s)], "i": [neg(r), neg(s), p, q], "-i": [r, s, neg(p), neg(q)]}[u]
+
+
+_UNITS = {"-1": -1, "i": 1j, "-i": -1j}
+
+
+def _entry_scalar(e):
+    return complex(float(unrat(e[0])), float(unrat(e[1])))
+
+
+def _build_matrix(m, form="list", mutable=False):
+    """the caller's matrix object handed to get_pauliop_from_matrix"""
+    import numpy as np
+    rows = [[_entry_scalar(e) for e in row] for row in m]
+    if not mutable and all(unrat(e[1]) == 0 for row in m for e in row):
+        if all(unrat(e[0]).denominator == 1 for row in m for e in row):
+            rows = [[int(unrat(e[0])) for e in row] for row in m]
         else:
-            out.append(common.cyc_to_complex(a))
-    return out
+            rows = [[float(unrat(e[0])) for e in row] for row in m]
+    if form == "ndarray":
+        return np.array(rows, dtype=complex) if mutable else np.array(rows)
+    if form == "rows":
+        return [np.array(r, dtype=complex) if mutable else np.array(r) for r in rows]
+    return rows
 
 
 # --------------------------------------------------------------------------- reference (oracle only)
@@ -124,6 +184,30 @@ def _ref_matrix(terms, n):
     return a
 
 
+def _ref_entries(terms, n):
+    """the same definition as a dictionary (row, column) -> value (identity factors contribute 1): wide registers"""
+    ent = {}
+    for t in terms:
+        coeff = complex(float(unrat(t["c"][0])), float(unrat(t["c"][1])))
+        ops = [(n - 1 - q, p) for q, p in t["ops"]]
+        flip = 0
+        for sh, p in ops:
+            if p in "XY":
+                flip |= 1 << sh
+        for r in range(2 ** n):
+            v = coeff
+            for sh, p in ops:
+                br = (r >> sh) & 1
+                v = v * _P2[p][br][1 - br if p in "XY" else br]
+            key = (r, r ^ flip)
+            ent[key] = ent.get(key, 0) + v
+    return ent
+
+
+def _ent_diff(a, b):
+    return max([abs(a.get(k, 0) - b.get(k, 0)) for k in set(a) | set(b)], default=0.0)
+
+
 def _bitrev(i, n):
     return int(format(i, f"0{n}b")[::-1], 2) if n else 0
 
@@ -148,7 +232,22 @@ def _is_simplified(terms):
 
 
 # --------------------------------------------------------------------------- generators
-def _gen_coeff(rng, exact):
+FLAVOURS = ["ising", "x", "y", "full", "int", "np", "scaled"]
+
+
+def _pick_flavour(rng, exact=True):
+    if rng.random() < 0.55:
+        return None
+    f = rng.choice(FLAVOURS)
+    return None if (f == "scaled" and not exact) else f
+
+
+def _gen_coeff(rng, exact, flavour=None):
+    if flavour == "int":
+        re, im = Fraction(rng.randrange(-3, 4)), Fraction(0)
+        if re == 0 and rng.random() < 0.8:
+            re = Fraction(2)
+        return [rat(re), rat(im)], "i"
     if exact:
         re, im = Fraction(rng.randrange(-16, 17), 8), Fraction(rng.randrange(-16, 17), 8)
     else:
@@ -163,28 +262,42 @@ def _gen_coeff(rng, exact):
     if re == 0 and im == 0 and rng.random() < 0.6:
         re = Fraction(1)
     ty = "c"
-    if im == 0:
+    if flavour == "np":
+        ty = "nf" if im == 0 and rng.random() < 0.5 else "nc"
+    elif im == 0:
         ty = rng.choice(["c", "f", "f", "i" if re.denominator == 1 else "f"])
     return [rat(re), rat(im)], ty
 
 
-def _gen_term(rng, maxq, exact):
-    if maxq == 0 or rng.random() < 0.12:
+def _gen_term(rng, maxq, exact, flavour=None):
+    letters = {"ising": "Z", "x": "X", "y": "Y"}.get(flavour, "XYYZ")
+    if maxq == 0 or (flavour != "full" and rng.random() < 0.12):
         ops = []
+    elif flavour == "full":
+        qs = list(range(maxq))
+        rng.shuffle(qs)
+        ops = [[q, rng.choice(letters)] for q in qs]
     else:
         k = rng.choice([1, 1, 2, 2, 3, 4])
         qs = rng.sample(range(maxq), min(k, maxq))
-        ops = [[q, rng.choice("XYYZ")] for q in qs]  # Y-heavy, arbitrary dict order
-    c, ty = _gen_coeff(rng, exact)
+        ops = [[q, rng.choice(letters)] for q in qs]  # Y-heavy, arbitrary dict order
+    c, ty = _gen_coeff(rng, exact, flavour)
     return {"ops": ops, "c": c, "t": ty}
 
 
-def _gen_sum(rng, maxq, exact, hermitian=None):
+def _scale(terms, k):
+    f = Fraction(2) ** k
+    for t in terms:
+        t["c"] = [rat(unrat(t["c"][0]) * f), rat(unrat(t["c"][1]) * f)]
+    return terms
+
+
+def _gen_sum(rng, maxq, exact, hermitian=None, flavour=None):
     r = rng.random()
     if r < 0.06:
         return []
     nt = rng.choice([1, 1, 2, 3, 4, 6])
-    terms = [_gen_term(rng, maxq, exact) for _ in range(nt)]
+    terms = [_gen_term(rng, maxq, exact, flavour) for _ in range(nt)]
     if rng.random() < 0.25 and terms:
         # duplicate support (non-simplified sum); sometimes cancelling
         t = dict(rng.choice(terms))
@@ -197,6 +310,8 @@ def _gen_sum(rng, maxq, exact, hermitian=None):
             t["c"] = [t["c"][0], 0]
             if unrat(t["c"][0]) == 0:
                 t["c"] = [1, 0]
+    if flavour == "scaled" and exact:
+        _scale(terms, rng.choice([12, -10]))
     return terms
 
 
@@ -212,12 +327,20 @@ def _dedupe_keys(terms):
     return out
 
 
+MATRIX_STYLES = ["dense", "dense", "real", "int", "sparse", "hermitian", "diag", "pauli", "single", "antisym", "perm", "scaled"]
+
+
 def _gen_matrix(rng, n, exact, style):
     d = 2 ** n
     den = 8 if exact else rng.choice([3, 5, 10])
+    zero = [0, 0]
 
     def e():
         return [rat(Fraction(rng.randrange(-16, 17), den)), rat(Fraction(rng.randrange(-16, 17), den))]
+
+    def nz():
+        x = e()
+        return x if x != zero else [1, "-1/2"]
 
     if style == "dense":
         return [[e() for _ in range(d)] for _ in range(d)]
@@ -234,6 +357,29 @@ def _gen_matrix(rng, n, exact, style):
             for j in range(i):
                 m[i][j] = [m[j][i][0], rat(-unrat(m[j][i][1]))]
         return m
+    if style == "diag":
+        return [[e() if i == j else [0, 0] for j in range(d)] for i in range(d)]
+    if style == "single":
+        i, j = rng.randrange(d), rng.randrange(d)
+        return [[nz() if (a, b) == (i, j) else [0, 0] for b in range(d)] for a in range(d)]
+    if style == "antisym":
+        m = [[e() for _ in range(d)] for _ in range(d)]
+        for i in range(d):
+            m[i][i] = [0, 0]
+            for j in range(i):
+                m[i][j] = [rat(-unrat(m[j][i][0])), rat(-unrat(m[j][i][1]))]
+        return m
+    if style == "perm":
+        p = list(range(d))
+        rng.shuffle(p)
+        return [[[1, 0] if p[i] == j else [0, 0] for j in range(d)] for i in range(d)]
+    if style == "pauli":
+        t = {"ops": [[q, rng.choice("XYZ")] for q in range(n) if rng.random() < 0.7], "c": nz()}
+        return [[_cz(x) for x in row] for row in _ref_matrix([t], n)]
+    if style == "scaled":
+        f = Fraction(2) ** rng.choice([12, -10])
+        return [[[rat(Fraction(rng.randrange(-16, 17), 8) * f), rat(Fraction(rng.randrange(-16, 17), 8) * f)]
+                 for _ in range(d)] for _ in range(d)]
     raise AssertionError(style)
 
 
@@ -285,6 +431,373 @@ def _gen_psi(rng, n, mode):
     return psi
 
 
+# --------------------------------------------------------------------------- sessions (histories on long-lived objects)
+# A session case:  pool  = term specs (each becomes ONE PauliTerm object),
+#                  ops   = [{"terms": [pool indices], "as_term": bool}]  (a PauliSum built from those very term objects, or
+#                          the pool term itself) -> operators may share term objects,
+#                  psis  = wavefunctions, mats = [{"m": rows, "form": ...}] caller-owned matrices,
+#                  steps = calls  {"do": "sparse"|"reverse", "op", "n"} {"do": "hc", "op"} {"do": "expect", "op", "psi", "rev"}
+#                                 {"do": "from_matrix", "mat"}
+#                          edits  {"do": "set_coeff", "op", "term", "c", "t"}   op.terms[term].coefficient = c
+#                                 {"do": "set_terms", "op", "terms": [pool indices]}   op.terms = [those term objects]
+#                                 {"do": "replace", "op", "sum": [...], "as_term"}    slot rebound to a brand-new operator
+#                                 {"do": "phase", "psi", "idx", "u"}                  wf[idx] = wf[idx] * u, |u| = 1
+#                                 {"do": "set_mat", "mat", "i", "j", "v"}             M[i][j] = v
+#                                 {"do": "poison", "step"}   the object RETURNED by that step is overwritten in place
+class _Sess:
+    def __init__(self, exact=True):
+        self.c = {"kind": "session", "exact": exact, "pool": [], "ops": [], "psis": [], "mats": [], "steps": []}
+
+    def term(self, spec):
+        self.c["pool"].append(spec)
+        return len(self.c["pool"]) - 1
+
+    def op(self, idxs, as_term=False):
+        o = {"terms": list(idxs)}
+        if as_term:
+            o["as_term"] = True
+        self.c["ops"].append(o)
+        return len(self.c["ops"]) - 1
+
+    def sum(self, terms):
+        return self.op([self.term(t) for t in terms])
+
+    def psi(self, p):
+        self.c["psis"].append(p)
+        return len(self.c["psis"]) - 1
+
+    def mat(self, m, form="list"):
+        self.c["mats"].append({"m": m, "form": form})
+        return len(self.c["mats"]) - 1
+
+    def step(self, **kw):
+        self.c["steps"].append(kw)
+        return len(self.c["steps"]) - 1
+
+    def case(self):
+        return self.c
+
+
+def _other_coeff(rng, c):
+    re, im = unrat(c[0]), unrat(c[1])
+    m = rng.choice(["re", "im", "conj", "neg", "swap"])
+    if m == "re":
+        re += Fraction(rng.choice([-3, -1, 1, 2]), 8)
+    elif m == "im":
+        im += Fraction(rng.choice([-3, -1, 1, 2]), 8)
+    elif m == "conj" and im != 0:
+        im = -im
+    elif m == "neg" and (re, im) != (0, 0):
+        re, im = -re, -im
+    elif m == "swap" and re != im:
+        re, im = im, re
+    else:
+        re += Fraction(1, 4)
+    return [rat(re), rat(im)]
+
+
+def _sibling_sum(rng, s, n):
+    """a sum that differs from s in exactly one component"""
+    s2 = copy.deepcopy(s)
+    m = rng.choice(["coeff", "coeff", "letter", "qubit", "order", "drop", "dup", "type"])
+    t = rng.choice(s2)
+    if m == "letter" and t["ops"]:
+        o = rng.choice(t["ops"])
+        o[1] = rng.choice([p for p in "XYZ" if p != o[1]])
+    elif m == "qubit" and t["ops"] and len(t["ops"]) < n:
+        o = rng.choice(t["ops"])
+        o[0] = rng.choice([q for q in range(n) if q not in [x[0] for x in t["ops"]]])
+    elif m == "order" and (len(s2) > 1 or len(t["ops"]) > 1):
+        s2.reverse()
+        for x in s2:
+            x["ops"].reverse()
+    elif m == "drop" and len(s2) > 1:
+        s2.remove(t)
+    elif m == "dup":
+        s2.append({"ops": list(reversed(copy.deepcopy(t["ops"]))), "c": _other_coeff(rng, t["c"]), "t": "c"})
+    elif m == "type" and unrat(t["c"][1]) == 0:
+        t["t"] = rng.choice([x for x in ["c", "f", "nf", "nc"] if x != t.get("t", "c")])
+    else:
+        t["c"] = _other_coeff(rng, t["c"])
+        t["t"] = "c"
+    return s2
+
+
+def _gen_session(rng, tier):
+    big = tier == "thorough"
+    exact = rng.random() < 0.9
+    n = rng.randrange(1, (4 if big else 3) + 1)
+    base = []
+    herm = rng.random() < 0.3                               # real coefficients: "already Hermitian" shapes
+    while not base:
+        base = _gen_sum(rng, n, exact, hermitian=herm, flavour=_pick_flavour(rng, exact))
+        if rng.random() < 0.5:
+            base = _dedupe_keys(base)
+    base = base[:4]
+    B = _Sess(exact)
+    idx = [B.term(t) for t in base]
+    B.op(idx)
+    B.sum(_sibling_sum(rng, base, n))                       # one component different, distinct objects
+    if rng.random() < 0.5:
+        B.sum(copy.deepcopy(base))                          # equal but not identical
+    if rng.random() < 0.6:                                  # shares term objects with operator 0
+        share = [k for k in idx if rng.random() < 0.7] or idx[:1]
+        extra = [B.term(_gen_term(rng, n, exact))] if rng.random() < 0.5 else []
+        B.op(share + extra)
+    if rng.random() < 0.6:                                  # a PauliTerm that IS one of the terms of operator 0
+        B.op([rng.choice(idx)], as_term=True)
+    spare = [B.term(_gen_term(rng, n, exact)) for _ in range(2)]
+    nops = len(B.c["ops"])
+    sums = [i for i, o in enumerate(B.c["ops"]) if not o.get("as_term")]
+    mode = "dyadic" if exact else rng.choice(["dyadic", "pyth", "sqrt2"])
+    p0 = _gen_psi(rng, n, mode)
+    B.psi(p0)
+    B.psi(_gen_psi(rng, n, mode))
+    B.psi(copy.deepcopy(p0))
+    B.psi(_gen_psi(rng, n + 1, mode))
+    if n > 1 and rng.random() < 0.3:
+        B.psi(_gen_psi(rng, n - 1, mode))                   # narrower than some operators: rejected calls
+    psi_n = [len(p).bit_length() - 1 for p in B.c["psis"]]
+    ns = [None, None, n, n, n + 1, n + 2] + ([n - 1] if rng.random() < 0.4 else [])
+    weights = rng.choice([["expect"] * 4 + ["sparse", "reverse", "hc"], ["sparse"] * 4 + ["expect", "reverse", "hc"],
+                          ["reverse"] * 4 + ["expect", "sparse", "hc"], ["hc"] * 4 + ["expect", "sparse", "reverse"],
+                          ["expect", "sparse", "reverse", "hc"]])
+
+    def fresh():
+        api = rng.choice(weights)
+        st = {"do": api, "op": rng.choice([0, 0, 0] + list(range(nops)))}
+        if api in ("sparse", "reverse"):
+            st["n"] = rng.choice(ns)
+        if api == "expect":
+            st["psi"] = rng.choice([0, 0, 1, 2, 3] + list(range(len(psi_n))))
+            st["rev"] = rng.random() < 0.5
+        return st
+
+    def twin(st):
+        tw = dict(st)
+        comp = rng.choice({"expect": ["rev", "rev", "psi", "op"], "sparse": ["n", "n", "op"], "reverse": ["n", "n", "op"],
+                           "hc": ["op"]}[st["do"]])
+        if comp == "rev":
+            tw["rev"] = not st["rev"]
+        elif comp == "psi":
+            same = [j for j, w in enumerate(psi_n) if w == psi_n[st["psi"]] and j != st["psi"]]
+            tw["psi"] = rng.choice(same or [j for j in range(len(psi_n)) if j != st["psi"]])
+        elif comp == "n":
+            tw["n"] = rng.choice([x for x in ns if x != st.get("n")])
+        else:
+            tw["op"] = rng.choice([i for i in range(nops) if i != st["op"]])
+        return tw
+
+    last, last_i = None, None
+    for _ in range(rng.randrange(5, 14 if big else 10)):
+        r = rng.random()
+        again = True
+        if last is None or r >= 0.80:
+            last = fresh()
+            last_i = B.step(**last)
+            again = False
+        elif r < 0.40:
+            B.step(**twin(last))
+            again = rng.random() < 0.6
+        elif r < 0.54 and last["do"] != "expect":
+            B.step(do="poison", step=last_i)
+        elif r < 0.64:
+            i = rng.choice([last["op"], last["op"], rng.randrange(nops)])
+            # position in the operator's term list: only ops whose terms were never re-assigned are edited by position 0
+            B.step(do="set_coeff", op=i, term=0, c=_gen_coeff(rng, exact)[0], t=rng.choice(["c", "c", "f", "nc"]))
+        elif r < 0.71:
+            if last["do"] != "expect":                      # an evaluation before the edit, the same one after it
+                last = {"do": "expect", "op": last["op"], "psi": rng.choice([0, 1, 3]), "rev": rng.random() < 0.5}
+                B.step(**last)
+            j = last["psi"]
+            nzs = [i for i, a in enumerate(B.c["psis"][j]) if any(unrat(x) != 0 for x in a)]
+            B.step(do="phase", psi=j, idx=rng.choice(nzs), u=rng.choice(["-1", "i", "-i"]))
+        elif r < 0.76 and sums:
+            i = last["op"] if last["op"] in sums else rng.choice(sums)
+            pool = idx + spare
+            k = rng.randrange(1, min(4, len(pool)) + 1)
+            B.step(do="set_terms", op=i, terms=rng.sample(pool, k))
+        else:
+            i = rng.choice([last["op"], rng.randrange(nops)])
+            new = _sibling_sum(rng, base, n) if rng.random() < 0.6 else (_gen_sum(rng, n, exact) or copy.deepcopy(base))
+            if B.c["ops"][i].get("as_term"):
+                B.step(do="replace", op=i, sum=new[:1], as_term=True)
+            else:
+                B.step(do="replace", op=i, sum=new)
+        if again:
+            last_i = B.step(**last)
+    for i in range(nops):                                   # closing sweep: every operator still denotes what it says
+        B.step(do="sparse", op=i, n=None)
+    return B.case()
+
+
+def _gen_matrix_session(rng, tier):
+    big = tier == "thorough"
+    n = rng.choice([1, 1, 2, 2, 3] if big else [1, 1, 2, 2])
+    d = 2 ** n
+    B = _Sess(True)
+    style = rng.choice(MATRIX_STYLES)
+    m0 = _gen_matrix(rng, n, True, style)
+    forms = ["list", "ndarray", "rows"]
+    B.mat(m0, rng.choice(forms))
+    B.mat(copy.deepcopy(m0), rng.choice(forms))             # equal, not identical
+    m2 = copy.deepcopy(m0)
+    i, j = rng.randrange(d), rng.randrange(d)
+    m2[i][j] = [rat(unrat(m2[i][j][0]) + Fraction(1, 2)), rat(unrat(m2[i][j][1]) - Fraction(3, 8))]
+    B.mat(m2, rng.choice(forms))                            # one entry different
+    B.mat([[[rat(unrat(e[0])), rat(-unrat(e[1]))] for e in row] for row in m0], rng.choice(forms))  # conjugate
+    B.mat(_gen_matrix(rng, rng.choice([x for x in (1, 2, 3) if x != n][:2]), True, rng.choice(MATRIX_STYLES)), rng.choice(forms))
+    last = B.step(do="from_matrix", mat=0)
+    for _ in range(rng.randrange(4, 9)):
+        r = rng.random()
+        if r < 0.35:
+            B.step(do="from_matrix", mat=rng.randrange(1, 5))
+        elif r < 0.55:
+            B.step(do="poison", step=last)
+        elif r < 0.85:
+            B.step(do="set_mat", mat=0, i=rng.randrange(d), j=rng.randrange(d),
+                   v=[rat(Fraction(rng.randrange(-16, 17), 8)), rat(Fraction(rng.randrange(-16, 17), 8))])
+        last = B.step(do="from_matrix", mat=0)
+    return B.case()
+
+
+def _gen_wide(rng, tier):
+    """registers with multi-digit qubit indices; the matrices are handled as dictionaries of their non-zero entries"""
+    big = tier == "thorough"
+    n = rng.choice([11, 12, 13] if big else [11, 12])
+    api = rng.choice(["sparse", "reverse", "hc", "expect", "expect"])
+    terms = []
+    for _ in range(rng.choice([1, 2, 2, 3])):
+        qs = {rng.randrange(10, n)} if rng.random() < 0.8 else set()
+        while len(qs) < rng.choice([1, 2, 2, 3]):
+            qs.add(rng.randrange(n))
+        qs = list(qs)
+        rng.shuffle(qs)
+        c, ty = _gen_coeff(rng, True)
+        terms.append({"ops": [[q, rng.choice("XYYZ")] for q in qs], "c": c, "t": ty})
+    if rng.random() < 0.3:
+        terms.append({"ops": [], "c": ["3/8", "-1/4"], "t": "c"})
+    if api == "hc" and rng.random() < 0.7:
+        terms = _dedupe_keys(terms)
+        if rng.random() < 0.5:
+            for t in terms:
+                t["c"] = [t["c"][0] if unrat(t["c"][0]) != 0 else 1, 0]
+    c = {"kind": "wide", "api": api, "sum": terms, "exact": True}
+    if api in ("sparse", "reverse"):
+        c["n"] = rng.choice([None, n, n])
+    if api == "expect":
+        rev = rng.random() < 0.5
+        p0 = rng.randrange(2 ** n)
+        pos = [p0]
+        for t in terms:
+            flip = 0
+            for q, p in t["ops"]:
+                if p in "XY":
+                    flip |= 1 << (q if rev else n - 1 - q)
+            if p0 ^ flip not in pos and len(pos) < 4:
+                pos.append(p0 ^ flip)
+        amps = {1: [(1, 1)], 2: [(3, 5), (4, 5)], 3: [(2, 3), (2, 3), (1, 3)], 4: [(1, 2)] * 4}[len(pos)]
+        units = [(1, 0), (-1, 0), (0, 1), (0, -1)]
+        psi = []
+        for p, (a, b) in zip(pos, amps):
+            u = rng.choice(units)
+            psi.append([p, [rat(Fraction(u[0] * a, b)), rat(Fraction(u[1] * a, b))]])
+        c.update({"n": n, "psi": psi, "rev": rev, "exact": len(pos) in (1, 4)})
+    return c
+
+
+def _T(ops, re=1, im=0, ty="c"):
+    return {"ops": ops, "c": [re, im], "t": ty}
+
+
+def _corpus_sessions():
+    out = []
+    # the same operator and state, the reversal flag flipped and flipped back (C09_r2m2)
+    B = _Sess()
+    B.sum([_T([[0, "X"]], 1, 0, "f"), _T([[1, "Z"]], 2, 0, "f")])
+    B.psi([["1/2", 0], ["1/2", 0], [0, "1/2"], ["-1/2", 0]])
+    for rev in (True, False, True):
+        B.step(do="expect", op=0, psi=0, rev=rev)
+    out.append(B.case())
+    # sibling operators (one coefficient / one letter / PauliTerm vs sum of it) through every API
+    B = _Sess()
+    a = B.sum([_T([[0, "X"], [2, "Z"]], 1, 0, "f"), _T([[1, "Y"]], 0, "1/2")])
+    b = B.sum([_T([[0, "X"], [2, "Z"]], 1, 0, "f"), _T([[1, "Y"]], 0, "-1/2")])
+    c = B.sum([_T([[0, "X"], [2, "Y"]], 1, 0, "f"), _T([[1, "Y"]], 0, "1/2")])
+    B.psi([["1/2", 0], [0, 0], [0, "1/2"], [0, 0], [0, 0], ["-1/2", 0], [0, 0], ["1/2", 0]])
+    for api in ("sparse", "hc", "reverse", "expect"):
+        for o in (a, b, c, a):
+            st = {"do": api, "op": o}
+            if api in ("sparse", "reverse"):
+                st["n"] = 3
+            if api == "expect":
+                st.update(psi=0, rev=False)
+            B.step(**st)
+    out.append(B.case())
+    # one operator, several states / widths, the coefficient edited in between
+    B = _Sess()
+    B.sum([_T([[1, "Y"], [0, "Z"]], "1/2", 1)])
+    B.psi([["1/2", 0], [0, "1/2"], ["-1/2", 0], ["1/2", 0]])
+    B.psi([[0, 0], [1, 0], [0, 0], [0, 0]])
+    B.psi([[0, 0]] * 5 + [[0, 1]] + [[0, 0]] * 2)
+    for j in (0, 1, 0, 2):
+        B.step(do="expect", op=0, psi=j, rev=False)
+    B.step(do="set_coeff", op=0, term=0, c=[2, "-1/2"], t="c")
+    B.step(do="expect", op=0, psi=0, rev=False)
+    B.step(do="phase", psi=0, idx=1, u="i")
+    B.step(do="expect", op=0, psi=0, rev=False)
+    out.append(B.case())
+    # get_sparse_operator: widths interleaved, a rejected call, the returned matrix overwritten, the operator edited
+    B = _Sess()
+    B.sum([_T([[2, "X"], [0, "Y"]], 1, 2), _T([], "-3/2", 0, "f")])
+    for nn in (3, 4, None, 2, 3):
+        B.step(do="sparse", op=0, n=nn)
+    B.step(do="poison", step=4)
+    B.step(do="sparse", op=0, n=3)
+    B.step(do="set_coeff", op=0, term=1, c=[0, 1], t="c")
+    B.step(do="sparse", op=0, n=3)
+    out.append(B.case())
+    # hermitian_conjugated / is_hermitian: result overwritten, Hermiticity toggled by an edit, shared term objects
+    B = _Sess()
+    t0, t1 = B.term(_T([[0, "Z"]], 2, 0, "f")), B.term(_T([[1, "X"]], 1, 0, "f"))
+    B.op([t0, t1])
+    B.op([t0])
+    B.op([t0], as_term=True)
+    B.step(do="hc", op=0)
+    B.step(do="poison", step=0)
+    B.step(do="hc", op=0)
+    B.step(do="hc", op=2)
+    B.step(do="poison", step=3)
+    B.step(do="set_coeff", op=0, term=0, c=[2, 1], t="c")
+    for o in (0, 1, 2):
+        B.step(do="hc", op=o)
+    B.step(do="sparse", op=1, n=2)
+    out.append(B.case())
+    # reverse_qubit_order: widths interleaved on one object, result overwritten
+    B = _Sess()
+    B.sum([_T([[0, "X"]], 2, 0, "f"), _T([[2, "Z"]], 3, 0, "f")])
+    for nn in (None, 4, 3, None):
+        B.step(do="reverse", op=0, n=nn)
+    B.step(do="poison", step=3)
+    B.step(do="reverse", op=0, n=None)
+    B.step(do="expect", op=0, psi=B.psi([[0, 0], ["1/2", 0], [0, 0], [0, "1/2"], ["1/2", 0], [0, 0], [0, 0], ["1/2", 0]]), rev=True)
+    B.step(do="sparse", op=0, n=None)
+    out.append(B.case())
+    # get_pauliop_from_matrix: the caller's matrix edited in place between calls, equal copies, conjugate
+    B = _Sess()
+    m = [[[1, 0], [0, 1]], [[2, "-1/2"], [3, 0]]]
+    B.mat(copy.deepcopy(m), "ndarray")
+    B.mat(copy.deepcopy(m), "list")
+    B.step(do="from_matrix", mat=0)
+    B.step(do="poison", step=0)
+    B.step(do="from_matrix", mat=1)
+    B.step(do="set_mat", mat=0, i=0, j=1, v=[0, -1])
+    B.step(do="from_matrix", mat=0)
+    B.step(do="from_matrix", mat=1)
+    out.append(B.case())
+    return out
+
+
 def corpus():
     return [
         # F2 (fixed 67d2fe1): the empty sum is the zero operator
@@ -300,7 +813,10 @@ def corpus():
         {"kind": "hc", "sum": [{"ops": [[0, "X"]], "c": [0, 1], "t": "c"}, {"ops": [[0, "X"]], "c": [2, 0], "t": "f"}], "exact": True},
         {"kind": "hc", "sum": [{"ops": [[0, "Y"], [2, "Y"]], "c": ["1/2", 0], "t": "f"}, {"ops": [], "c": [1, 0], "t": "i"}], "exact": True},
         {"kind": "hc", "sum": [{"ops": [[1, "Y"]], "c": [1, 1], "t": "c"}], "as_term": True, "exact": True},
+        {"kind": "hc", "sum": [{"ops": [], "c": [0, 1], "t": "c"}], "as_term": True, "exact": True},
+        {"kind": "hc", "sum": [{"ops": [], "c": ["1/2", -2], "t": "c"}], "exact": True},
         {"kind": "from_matrix", "m": [[[1, 0], [0, 1]], [[2, 0], [3, 0]]], "exact": True},
+        {"kind": "from_matrix", "m": [[[1, 0], [0, 1]], [[2, 0], [3, 0]]], "form": "ndarray", "exact": True},
         {"kind": "from_matrix", "m": [[[5, "-1/2"]]], "exact": True},
         {"kind": "from_matrix", "m": [[[0, 0]] * 3] * 3, "exact": True},
         {"kind": "from_matrix", "m": [[[0, 0]] * 4] * 2, "exact": True},
@@ -308,7 +824,16 @@ def corpus():
         {"kind": "reverse", "sum": [{"ops": [[0, "X"]], "c": [1, 0], "t": "f"}, {"ops": [[1, "Y"]], "c": [1, 0], "t": "f"}], "n": None, "exact": True},
         {"kind": "expect", "sum": [{"ops": [[0, "Y"]], "c": [1, 0], "t": "f"}], "psi": [[0, "1/2", 0, "-1/2"], [0, "1/2", 0, "1/2"]], "rev": False, "exact": False},
         {"kind": "expect", "sum": [{"ops": [[0, "Z"], [1, "X"]], "c": [1, 0], "t": "f"}], "psi": [["1/2", 0], ["1/2", 0], [0, "1/2"], [0, "-1/2"]], "rev": True, "exact": True},
-    ]
+        # Z-only operator with a complex coefficient and a constant (diagonal fast paths)
+        {"kind": "expect", "sum": [{"ops": [[0, "Z"], [1, "Z"]], "c": [1, "1/2"], "t": "c"}, {"ops": [], "c": [0, 2], "t": "c"}],
+         "psi": [["1/2", 0], ["1/2", 0], [0, "1/2"], [0, "-1/2"]], "rev": True, "exact": True},
+        # multi-digit qubit indices
+        {"kind": "wide", "api": "sparse", "sum": [{"ops": [[10, "Y"], [2, "X"]], "c": [1, "1/2"], "t": "c"}], "n": None, "exact": True},
+        {"kind": "wide", "api": "reverse", "sum": [{"ops": [[10, "Y"], [2, "X"]], "c": [1, "1/2"], "t": "c"},
+                                                   {"ops": [[9, "Z"]], "c": [2, 0], "t": "f"}], "n": 12, "exact": True},
+        {"kind": "wide", "api": "expect", "sum": [{"ops": [[10, "Z"], [2, "X"]], "c": [1, 0], "t": "f"}], "n": 11,
+         "psi": [[5, [0, "3/5"]], [5 ^ (1 << 8), ["4/5", 0]]], "rev": False, "exact": False},
+    ] + _corpus_sessions()
 
 
 def generate(rng, tier):
@@ -317,10 +842,10 @@ def generate(rng, tier):
     maxw = 4 if big else 3
 
     # ---- get_sparse_operator
-    for _ in range(1200 if big else 90):
+    for _ in range(1200 if big else 110):
         exact = rng.random() < 0.85
         w = rng.randrange(0, maxw + 1)
-        s = _gen_sum(rng, w, exact)
+        s = _gen_sum(rng, w, exact, flavour=_pick_flavour(rng, exact))
         width = _width(s)
         r = rng.random()
         if r < 0.12:
@@ -341,12 +866,17 @@ def generate(rng, tier):
         for extra in (0, 1):
             cases.append({"kind": "sparse", "sum": [{"ops": list(reversed(ops)), "c": ["1/2", "-3/8"], "t": "c"}],
                           "n": _width([{"ops": ops}]) + extra, "exact": True})
+    # a few registers of 6-7 qubits
+    for _ in range(12 if big else 3):
+        w = rng.choice([5, 6, 7])
+        s = _gen_sum(rng, w, True, flavour=_pick_flavour(rng)) or [_gen_term(rng, w, True)]
+        cases.append({"kind": "sparse", "sum": s[:4], "n": rng.choice([None, max(_width(s[:4]), 6), 7]), "exact": True})
 
     # ---- hermitian_conjugated / is_hermitian
-    for _ in range(1200 if big else 90):
+    for _ in range(1200 if big else 110):
         exact = rng.random() < 0.85
         herm = rng.random() < 0.4
-        s = _gen_sum(rng, rng.randrange(0, maxw + 1), exact, hermitian=herm)
+        s = _gen_sum(rng, rng.randrange(0, maxw + 1), exact, hermitian=herm, flavour=_pick_flavour(rng, exact))
         if rng.random() < 0.6:
             s = _dedupe_keys(s)
         c = {"kind": "hc", "sum": s, "exact": exact}
@@ -355,11 +885,17 @@ def generate(rng, tier):
         cases.append(c)
 
     # ---- get_pauliop_from_matrix
-    for _ in range(500 if big else 45):
+    for _ in range(500 if big else 60):
         exact = rng.random() < 0.85
         n = rng.choice([0, 1, 1, 2, 2, 2, 2, 3, 3, 1, 2, 3, 1, 2])
-        style = rng.choice(["dense", "dense", "real", "int", "sparse", "hermitian"])
-        cases.append({"kind": "from_matrix", "m": _gen_matrix(rng, n, exact, style), "exact": exact})
+        style = rng.choice(MATRIX_STYLES)
+        if style == "scaled":
+            exact = True
+        cases.append({"kind": "from_matrix", "m": _gen_matrix(rng, n, exact, style), "exact": exact,
+                      "form": rng.choice(["list", "list", "ndarray", "rows"])})
+    for _ in range(8 if big else 2):
+        cases.append({"kind": "from_matrix", "m": _gen_matrix(rng, 4, True, rng.choice(["dense", "sparse", "hermitian", "pauli"])),
+                      "exact": True, "form": rng.choice(["list", "ndarray"])})
     for _ in range(150 if big else 12):
         # matrices of known Pauli sums (few non-zero components)
         n = rng.choice([1, 2, 3])
@@ -371,9 +907,9 @@ def generate(rng, tier):
                       "exact": True})
 
     # ---- reverse_qubit_order
-    for _ in range(1000 if big else 80):
+    for _ in range(1000 if big else 90):
         exact = rng.random() < 0.85
-        s = _gen_sum(rng, rng.randrange(0, maxw + 1), exact)
+        s = _gen_sum(rng, rng.randrange(0, maxw + 1), exact, flavour=_pick_flavour(rng, exact))
         if rng.random() < 0.5:
             s = _dedupe_keys(s)
         width = _width(s)
@@ -389,15 +925,31 @@ def generate(rng, tier):
             c["as_term"] = True
         cases.append(c)
 
-    # ---- get_expectation_value
-    for _ in range(1000 if big else 80):
+    # ---- get_expectation_value / expectation
+    for _ in range(1000 if big else 100):
         n = rng.randrange(0, (5 if big else 4) + 1)
         mode = rng.choice(["dyadic", "dyadic", "pyth", "sqrt2"])
         exact = mode == "dyadic" and rng.random() < 0.9
         malformed = rng.random() < 0.07
-        s = _gen_sum(rng, min(n + (1 if malformed else 0), maxw + 1), exact)
-        cases.append({"kind": "expect", "sum": s, "psi": _gen_psi(rng, n, mode), "rev": rng.random() < 0.5,
-                      "exact": exact})
+        s = _gen_sum(rng, min(n + (1 if malformed else 0), maxw + 1), exact, flavour=_pick_flavour(rng, exact))
+        c = {"kind": "expect", "sum": s, "psi": _gen_psi(rng, n, mode), "rev": rng.random() < 0.5, "exact": exact}
+        if len(s) == 1 and rng.random() < 0.3:
+            c["as_term"] = True
+        cases.append(c)
+    for _ in range(12 if big else 3):
+        n = rng.choice([6, 7])
+        s = _gen_sum(rng, n, True, flavour=_pick_flavour(rng)) or [_gen_term(rng, n, True)]
+        cases.append({"kind": "expect", "sum": s[:4], "psi": _gen_psi(rng, n, "dyadic"), "rev": rng.random() < 0.5, "exact": True})
+
+    # ---- histories on long-lived objects
+    for _ in range(700 if big else 90):
+        cases.append(_gen_session(rng, tier))
+    for _ in range(150 if big else 16):
+        cases.append(_gen_matrix_session(rng, tier))
+
+    # ---- wide registers (multi-digit qubit indices)
+    for _ in range(30 if big else 8):
+        cases.append(_gen_wide(rng, tier))
 
     # ---- dec2bin / bin2dec
     for _ in range(60 if big else 20):
@@ -413,6 +965,10 @@ def nontrivial(c):
         return len(m) >= 4 and len(m) == len(m[0]) and any(m[i][j] != m[j][i] for i in range(len(m)) for j in range(i))
     if k == "bits":
         return False
+    if k == "session":
+        return sum(1 for st in c["steps"] if st["do"] in SINGLE_KINDS) >= 2
+    if k == "wide":
+        return True
     s = c["sum"]
     width = _width(s)
     if k == "expect":
@@ -432,57 +988,226 @@ def nontrivial(c):
 
 
 # --------------------------------------------------------------------------- implementation
+def _do_sparse(op, n):
+    gso = _mods()[2]
+    try:
+        m = gso(op) if n is None else gso(op, n)
+    except ValueError as e:
+        return {"err": "err:value", "msg": str(e)[:100]}, None
+    a = m.toarray()
+    return {"shape": list(a.shape), "m": [[_cz(x) for x in row] for row in a]}, m
+
+
+def _do_hc(op, as_term):
+    PauliSum, PauliTerm, _, hconj, isherm, _, _ = _mods()
+    h = hconj(op)
+    if as_term:
+        return {"hc": [_canon_term(h)], "is_term": isinstance(h, PauliTerm), "herm": bool(isherm(op))}, h
+    return {"hc": _canon_sum(h), "is_sum": isinstance(h, PauliSum), "herm": bool(isherm(op))}, h
+
+
+def _do_from_matrix(rows):
+    U = _mods()[5]
+    try:
+        op = U.get_pauliop_from_matrix(rows)
+    except IndexError:
+        return {"err": "err:index"}, None
+    except Exception as e:
+        if type(e) is Exception:  # the code raises bare Exception for bad shapes
+            return {"err": "err:exception", "msg": str(e)[:100]}, None
+        raise
+    return {"sum": _canon_sum(op)}, op
+
+
+def _do_reverse(op, n_arg):
+    PauliSum, _, _, _, _, U, _ = _mods()
+    try:
+        r1 = U.reverse_qubit_order(op) if n_arg is None else U.reverse_qubit_order(op, n_arg)
+    except ValueError as e:
+        return {"err": "err:value", "msg": str(e)[:100]}, None
+    n = op.n_qubits if n_arg is None else n_arg
+    r2 = U.reverse_qubit_order(r1, n)
+    return {"once": _canon_sum(r1), "twice": _canon_sum(r2), "n": n, "is_sum": isinstance(r1, PauliSum)}, (r1, r2)
+
+
+def _do_expect(op, wf, rev):
+    U = _mods()[5]
+    try:
+        v = U.get_expectation_value(op, wf, rev)
+    except ValueError as e:
+        return {"err": "err:value", "msg": str(e)[:100]}, None
+    return {"v": _cz(v), "vf": [complex(v).real, complex(v).imag]}, v
+
+
+def _expect_alts(op, psi, rev, n, rho=True):
+    """the other routes to the same number: expectation(matrix, state) for a vector, a column vector and a density matrix"""
+    import numpy as np
+    import scipy.sparse
+    from orquestra.quantum.operators._openfermion_utils.sparse_tools import expectation
+    _, _, gso, _, _, U, _ = _mods()
+    alts = {}
+
+    def rec(name, f):
+        try:
+            v = f()
+            alts[name] = {"v": _cz(v), "vf": [complex(v).real, complex(v).imag]}
+        except Exception as e:
+            alts[name] = {"exc": type(e).__name__, "msg": str(e)[:100]}
+
+    o = U.reverse_qubit_order(op, n) if rev else op
+    m = gso(o, n)
+    rec("direct", lambda: expectation(m, psi.copy()))
+    rec("column", lambda: expectation(m, psi.copy().reshape(-1, 1)))
+    if rho:
+        rec("density", lambda: expectation(m, scipy.sparse.csc_matrix(np.outer(psi, np.conj(psi)))))
+    return alts
+
+
+def _poison(r):
+    """overwrite, in place, an object a call returned (the caller owns it)"""
+    PauliSum, PauliTerm = _mods()[:2]
+    if r is None:
+        return
+    if isinstance(r, tuple):
+        for x in r:
+            _poison(x)
+        return
+    if hasattr(r, "toarray") and hasattr(r, "data"):
+        if r.data.size:
+            r.data[...] = r.data * (-3) + 1
+        return
+    if isinstance(r, PauliTerm):
+        r.coefficient = r.coefficient * 2 + 5
+        return
+    if isinstance(r, PauliSum):
+        for t in list(r.terms):
+            t.coefficient = t.coefficient * 2 + 5
+        if isinstance(r.terms, list):
+            r.terms.append(PauliTerm({0: "X"}, 7.0))
+
+
+def _run_session(c):
+    import numpy as np
+    PauliSum, PauliTerm, _, _, _, _, Wavefunction = _mods()
+    terms = [_term(t) for t in c["pool"]]
+    as_term = [bool(o.get("as_term")) for o in c["ops"]]
+    ops = [terms[o["terms"][0]] if o.get("as_term") else PauliSum([terms[k] for k in o["terms"]]) for o in c["ops"]]
+    wfs = [Wavefunction(np.array(_psi_complex(p), dtype=complex)) for p in c.get("psis", [])]
+    mats = [_build_matrix(m["m"], m.get("form", "list"), mutable=True) for m in c.get("mats", [])]
+    outs, results = [], []
+    for st in c["steps"]:
+        do = st["do"]
+        out, res = {"ok": True}, None
+        try:
+            if do in ("sparse", "hc", "reverse", "expect"):
+                op = ops[st["op"]]
+                seen = _canon_sum(op)
+                if do == "sparse":
+                    out, res = _do_sparse(op, st.get("n"))
+                elif do == "hc":
+                    out, res = _do_hc(op, as_term[st["op"]])
+                elif do == "reverse":
+                    out, res = _do_reverse(op, st.get("n"))
+                else:
+                    out, res = _do_expect(op, wfs[st["psi"]], st["rev"])
+                out["seen"] = seen
+            elif do == "from_matrix":
+                out, res = _do_from_matrix(mats[st["mat"]])
+            elif do == "set_coeff":
+                ops[st["op"]].terms[st["term"]].coefficient = _coef(st)
+            elif do == "set_terms":
+                ops[st["op"]].terms = [terms[k] for k in st["terms"]]
+            elif do == "replace":
+                ops[st["op"]] = None
+                as_term[st["op"]] = bool(st.get("as_term"))
+                ops[st["op"]] = _op({"sum": st["sum"], "as_term": st.get("as_term")})
+            elif do == "phase":
+                wf = wfs[st["psi"]]
+                wf[st["idx"]] = wf[st["idx"]] * _UNITS[st["u"]]
+            elif do == "set_mat":
+                m = mats[st["mat"]]
+                v = _entry_scalar(st["v"])
+                if isinstance(m, np.ndarray):
+                    m[st["i"], st["j"]] = v
+                else:
+                    m[st["i"]][st["j"]] = v
+            elif do == "poison":
+                _poison(results[st["step"]])
+            else:
+                raise AssertionError("unknown step " + do)
+        except Exception as e:
+            if type(e).__name__ == "Timeout":
+                raise
+            out, res = {"exc": type(e).__name__, "msg": str(e)[:200]}, None
+        outs.append(out)
+        results.append(res)
+    return {"steps": outs}
+
+
+def _run_wide(c):
+    import numpy as np
+    Wavefunction = _mods()[6]
+    op = _op(c)
+    api = c["api"]
+    if api == "sparse":
+        gso = _mods()[2]
+        m = (gso(op) if c.get("n") is None else gso(op, c["n"])).tocoo()
+        ent = sorted([int(r), int(col), _cz(v)[0], _cz(v)[1]] for r, col, v in zip(m.row, m.col, m.data) if v != 0)
+        return {"shape": list(m.shape), "entries": ent}
+    if api == "reverse":
+        return _do_reverse(op, c.get("n"))[0]
+    if api == "hc":
+        return _do_hc(op, False)[0]
+    n = c["n"]
+    psi = np.zeros(2 ** n, dtype=complex)
+    for p, a in c["psi"]:
+        psi[p] = _amp_complex(a)
+    out = _do_expect(op, Wavefunction(psi.copy()), c["rev"])[0]
+    if "v" in out:
+        out["alts"] = _expect_alts(_op(c), psi, c["rev"], n, rho=False)
+    return out
+
+
 def run_impl(c):
+    import numpy as np
     PauliSum, PauliTerm, gso, hconj, isherm, U, Wavefunction = _mods()
     k = c["kind"]
+    if k == "session":
+        return _run_session(c)
+    if k == "wide":
+        return _run_wide(c)
     if k == "sparse":
-        op = _op(c)
-        try:
-            m = gso(op) if c.get("n") is None else gso(op, c["n"])
-        except ValueError as e:
-            return {"err": "err:value", "msg": str(e)[:100]}
-        a = m.toarray()
-        return {"shape": list(a.shape), "m": [[_cz(x) for x in row] for row in a]}
+        return _do_sparse(_op(c), c.get("n"))[0]
     if k == "hc":
-        op = _op(c)
-        h = hconj(op)
-        if c.get("as_term"):
-            return {"hc": [_canon_term(h)], "is_term": isinstance(h, PauliTerm), "herm": bool(isherm(op))}
-        return {"hc": _canon_sum(h), "is_sum": isinstance(h, PauliSum), "herm": bool(isherm(op))}
+        out = _do_hc(_op(c), bool(c.get("as_term")))[0]
+        w = _width(c["sum"])
+        if w <= 3:
+            # the same two functions on the operator's matrix (built from the definition), dense and sparse
+            import scipy.sparse
+            a = _ref_matrix(c["sum"], w)
+            mats = {}
+            for name, m in (("dense", a.copy()), ("sparse", scipy.sparse.csc_matrix(a))):
+                try:
+                    h = hconj(m)
+                    h = h.toarray() if hasattr(h, "toarray") else np.asarray(h)
+                    mats[name] = {"hc": [[_cz(x) for x in row] for row in h], "herm": bool(isherm(m))}
+                except Exception as e:
+                    mats[name] = {"exc": type(e).__name__, "msg": str(e)[:100]}
+            out["mats"] = mats
+        return out
     if k == "from_matrix":
-        rows = [[complex(float(unrat(e[0])), float(unrat(e[1]))) for e in row] for row in c["m"]]
-        if all(unrat(e[1]) == 0 for row in c["m"] for e in row):
-            if all(unrat(e[0]).denominator == 1 for row in c["m"] for e in row):
-                rows = [[int(unrat(e[0])) for e in row] for row in c["m"]]
-            else:
-                rows = [[float(unrat(e[0])) for e in row] for row in c["m"]]
-        try:
-            op = U.get_pauliop_from_matrix(rows)
-        except IndexError:
-            return {"err": "err:index"}
-        except Exception as e:
-            if type(e) is Exception:  # the code raises bare Exception for bad shapes
-                return {"err": "err:exception", "msg": str(e)[:100]}
-            raise
-        return {"sum": _canon_sum(op)}
+        return _do_from_matrix(_build_matrix(c["m"], c.get("form", "list")))[0]
     if k == "reverse":
-        op = _op(c)
-        try:
-            r1 = U.reverse_qubit_order(op) if c.get("n") is None else U.reverse_qubit_order(op, c["n"])
-        except ValueError as e:
-            return {"err": "err:value", "msg": str(e)[:100]}
-        n = op.n_qubits if c.get("n") is None else c["n"]
-        r2 = U.reverse_qubit_order(r1, n)
-        return {"once": _canon_sum(r1), "twice": _canon_sum(r2), "n": n, "is_sum": isinstance(r1, PauliSum)}
+        return _do_reverse(_op(c), c.get("n"))[0]
     if k == "expect":
-        import numpy as np
-        wf = Wavefunction(np.array(_psi_complex(c["psi"]), dtype=complex))
+        psi = np.array(_psi_complex(c["psi"]), dtype=complex)
+        wf = Wavefunction(psi.copy())
         op = _op(c)
-        try:
-            v = U.get_expectation_value(op, wf, c["rev"])
-        except ValueError as e:
-            return {"err": "err:value", "msg": str(e)[:100]}
-        return {"v": _cz(v), "vf": [complex(v).real, complex(v).imag]}
+        out = _do_expect(op, wf, c["rev"])[0]
+        if "v" in out:
+            n = len(c["psi"]).bit_length() - 1
+            out["alts"] = _expect_alts(_op(c), psi, c["rev"], n, rho=n <= 6)  # a fresh operator: no shared history
+        return out
     if k == "bits":
         from orquestra.quantum.utils import bin2dec, dec2bin
         bits = dec2bin(c["number"], c["length"])
@@ -490,12 +1215,56 @@ def run_impl(c):
     raise AssertionError("unknown kind")
 
 
+# --------------------------------------------------------------------------- the harness's book-keeping of a session
+def _replay(c):
+    """For each step the equivalent single call on the CURRENT value of the objects (None for steps that only edit an
+    object).  Term objects shared between operators are shared cells here, exactly as the real objects are built."""
+    exact = c.get("exact", True)
+    cells = [copy.deepcopy(t) for t in c["pool"]]
+    ops = [{"cells": [cells[k] for k in o["terms"]], "as_term": bool(o.get("as_term"))} for o in c["ops"]]
+    psis = [copy.deepcopy(p) for p in c.get("psis", [])]
+    mats = [{"m": copy.deepcopy(m["m"]), "form": m.get("form", "list")} for m in c.get("mats", [])]
+    out = []
+    for st in c["steps"]:
+        do, eq = st["do"], None
+        if do in ("sparse", "hc", "reverse", "expect"):
+            o = ops[st["op"]]
+            eq = {"kind": do, "sum": copy.deepcopy(o["cells"]), "exact": exact}
+            if o["as_term"]:
+                eq["as_term"] = True
+            if do in ("sparse", "reverse"):
+                eq["n"] = st.get("n")
+            if do == "expect":
+                eq["psi"] = copy.deepcopy(psis[st["psi"]])
+                eq["rev"] = st["rev"]
+        elif do == "from_matrix":
+            eq = {"kind": "from_matrix", "m": copy.deepcopy(mats[st["mat"]]["m"]), "form": mats[st["mat"]]["form"], "exact": exact}
+        elif do == "set_coeff":
+            cell = ops[st["op"]]["cells"][st["term"]]
+            cell["c"], cell["t"] = list(st["c"]), st.get("t", "c")
+        elif do == "set_terms":
+            ops[st["op"]]["cells"] = [cells[k] for k in st["terms"]]
+        elif do == "replace":
+            ops[st["op"]] = {"cells": [copy.deepcopy(t) for t in st["sum"]], "as_term": bool(st.get("as_term"))}
+        elif do == "phase":
+            psis[st["psi"]][st["idx"]] = _phase(psis[st["psi"]][st["idx"]], st["u"])
+        elif do == "set_mat":
+            mats[st["mat"]]["m"][st["i"]][st["j"]] = list(st["v"])
+        out.append(eq)
+    return out
+
+
+def _describe(st):
+    d = {k: v for k, v in st.items() if k != "do"}
+    return st["do"] + "(" + ", ".join(f"{k}={v}" for k, v in d.items() if k not in ("sum", "c", "v", "t")) + ")"
+
+
 # --------------------------------------------------------------------------- model
 def _jsum(s):
     return [{"ops": t["ops"], "c": t["c"]} for t in s]
 
 
-def requests(c, out):
+def _requests_single(c):
     k = c["kind"]
     if k == "sparse":
         p = {"sum": _jsum(c["sum"])}
@@ -516,6 +1285,19 @@ def requests(c, out):
     if k == "bits":
         return [("bits", {"number": c["number"], "length": c["length"]})]
     return []
+
+
+def requests(c, out):
+    k = c["kind"]
+    if k == "session":
+        # the model is a function of the arguments only: every call of the history is answered from the current value
+        return [r for eq in _replay(c) if eq is not None for r in _requests_single(eq)]
+    if k == "wide":
+        # term-level functions are answered by the model; the 2^11..2^13-dimensional matrices are left to the oracle
+        if c["api"] in ("reverse", "hc"):
+            return _requests_single({"kind": c["api"], "sum": c["sum"], "n": c.get("n")})
+        return []
+    return _requests_single(c)
 
 
 def _cyc_pair(x):
@@ -545,7 +1327,7 @@ def _sum_eq(model, impl, exact):
     return True
 
 
-def compare(c, out, resp):
+def _compare_single(c, out, resp):
     r = resp[0]
     if isinstance(r, dict) and "driver_error" in r:
         return "driver error: " + r["driver_error"]
@@ -586,10 +1368,35 @@ def compare(c, out, resp):
             return None if out.get("err") == r else f"get_expectation_value: impl {out.get('err', out.get('vf'))} model {str(r)[:80]}"
         if not _scal_eq(r, out["v"], exact):
             return f"get_expectation_value: impl {out['vf']} model {r}"
+        for name, alt in sorted(out.get("alts", {}).items()):
+            if "v" not in alt:
+                return f"expectation ({name} state): implementation raised {alt}; model {r}"
+            if not _scal_eq(r, alt["v"], exact):
+                return f"expectation ({name} state): impl {alt['vf']} model {r}"
     elif k == "bits":
         if out["bits"] != r["bits"] or [out["back"]] != r["back"]:
             return f"dec2bin/bin2dec: impl {out} model {r}"
     return None
+
+
+def compare(c, out, resp):
+    k = c["kind"]
+    if k == "session":
+        if "steps" not in out:
+            return f"session: implementation raised {out}"
+        it = iter(resp)
+        for i, (st, eq, o) in enumerate(zip(c["steps"], _replay(c), out["steps"])):
+            if eq is None:
+                if "exc" in o and st["do"] != "poison":
+                    return None  # an edit of the harness's own objects was refused: nothing more to compare
+                continue
+            msg = _compare_single(eq, o, [next(it)])
+            if msg:
+                return f"session step {i} {_describe(st)}: {msg}"
+        return None
+    if k == "wide":
+        return _compare_single({"kind": c["api"], "sum": c["sum"], "n": c.get("n"), "exact": c.get("exact", True)}, out, resp)
+    return _compare_single(c, out, resp)
 
 
 # --------------------------------------------------------------------------- oracle
@@ -597,7 +1404,7 @@ def _terms_from(canon):
     return [{"ops": t["ops"], "c": t["c"]} for t in canon]
 
 
-def oracle(c, out):
+def _oracle_single(c, out):
     """the property's own sentences, evaluated on the implementation's outputs only"""
     import numpy as np
     k = c["kind"]
@@ -616,8 +1423,9 @@ def oracle(c, out):
         terms = _terms_from(out["sum"])
         if _width(terms) > n:
             return ("from-matrix-roundtrip", f"expansion of a {d}x{d} matrix acts on qubit {_width(terms) - 1}")
-        diff = _maxdiff(_ref_matrix(terms, n), _mat_of(m))
-        if diff > 1e-7:
+        want = _mat_of(m)
+        diff = _maxdiff(_ref_matrix(terms, n), want)
+        if diff > 1e-7 * max(1.0, float(np.max(np.abs(want)))):
             return ("from-matrix-roundtrip", f"Pauli expansion converted back differs from the matrix by {diff:.3g}")
         return None
 
@@ -633,7 +1441,7 @@ def oracle(c, out):
         got = _mat_of(out["m"])
         want = _ref_matrix(s, n)
         diff = _maxdiff(got, want)
-        if diff > TOL:
+        if diff > TOL * max(1.0, float(np.max(np.abs(want))) if want.size else 1.0):
             sig = "sparse-zero-operator" if not s else ("sparse-padded" if n > width else "sparse-definition")
             return (sig, f"get_sparse_operator(op, {c.get('n')}) differs from the tensor-product definition on {n} qubits by {diff:.3g}")
         return None
@@ -642,18 +1450,30 @@ def oracle(c, out):
             return ("hc-raise", f"hermitian_conjugated / is_hermitian raised: {out}")
         n = width
         a = _ref_matrix(s, n)
+        scale = max(1.0, float(np.max(np.abs(a))))
         terms = _terms_from(out["hc"])
         if _width(terms) > n:
             return ("hc-matrix", "hermitian conjugate acts on more qubits than the operator")
         diff = _maxdiff(_ref_matrix(terms, n), a.conj().T)
-        if diff > 1e-7:
+        if diff > 1e-7 * scale:
             return ("hc-matrix", f"hermitian_conjugated(op) differs from the conjugate-transposed matrix by {diff:.3g}")
+        dev = _maxdiff(a, a.conj().T)
         if _is_simplified(s):
-            dev = _maxdiff(a, a.conj().T)
             if dev <= 1e-12 and not out["herm"]:
                 return ("herm-test", "is_hermitian is False but the matrix equals its conjugate transpose")
             if dev >= 1e-3 and out["herm"]:
                 return ("herm-test", f"is_hermitian is True but the matrix differs from its conjugate transpose by {dev:.3g}")
+        for name, mo in sorted(out.get("mats", {}).items()):
+            # the same two functions applied to the operator's matrix itself
+            if "hc" not in mo:
+                return ("hc-raise", f"hermitian_conjugated / is_hermitian raised on the {name} matrix of the operator: {mo}")
+            dm = _maxdiff(_mat_of(mo["hc"]), a.conj().T)
+            if dm > 1e-9 * scale:
+                return ("hc-matrix", f"hermitian_conjugated of the {name} matrix differs from its conjugate transpose by {dm:.3g}")
+            if dev <= 1e-12 and not mo["herm"]:
+                return ("herm-test", f"is_hermitian of the {name} matrix is False but it equals its conjugate transpose")
+            if dev >= 1e-3 and mo["herm"]:
+                return ("herm-test", f"is_hermitian of the {name} matrix is True but it differs from its conjugate transpose by {dev:.3g}")
         return None
     if k == "reverse":
         n = width if c.get("n") is None else c["n"]
@@ -662,19 +1482,20 @@ def oracle(c, out):
         if "once" not in out:
             return ("reverse-raise", f"reverse_qubit_order raised for width {width}, n={n}: {out}")
         a = _ref_matrix(s, n)
+        scale = max(1.0, float(np.max(np.abs(a))))
         t1, t2 = _terms_from(out["once"]), _terms_from(out["twice"])
         if _width(t1) > n or _width(t2) > n:
             return ("reverse-once", "reversed operator acts outside the register")
         perm = [_bitrev(i, n) for i in range(2 ** n)]
         want = a[np.ix_(perm, perm)]
         d1 = _maxdiff(_ref_matrix(t1, n), want)
-        if d1 > 1e-7:
+        if d1 > 1e-7 * scale:
             return ("reverse-once", f"reverse_qubit_order(op, {n}) is not the bit-reversal permutation of the matrix (diff {d1:.3g})")
         d2 = _maxdiff(_ref_matrix(t2, n), a)
-        if d2 > 1e-7:
+        if d2 > 1e-7 * scale:
             return ("reverse-twice", f"reversing twice changes the operator (diff {d2:.3g})")
         if _is_simplified(s):
-            want_terms = [{"ops": sorted(t["ops"]), "c": [rat(Fraction(float(unrat(t["c"][0])))), rat(Fraction(float(unrat(t["c"][1]))))]} for t in s]
+            want_terms = [_canon_spec(t) for t in s]
             if out["twice"] != want_terms:
                 return ("reverse-twice", f"reversing a simplified sum twice gives {out['twice']}, not the sum itself")
         return None
@@ -686,26 +1507,132 @@ def oracle(c, out):
             return ("expectation-raise", f"get_expectation_value raised: {out}")
         psi = np.array(_psi_complex(c["psi"]), dtype=complex)
         a = _ref_matrix(s, n)
+        scale = max(1.0, float(np.max(np.abs(a))))
         if c["rev"]:
             perm = [_bitrev(i, n) for i in range(2 ** n)]
             a = a[np.ix_(perm, perm)]
         want = complex(np.conj(psi) @ (a @ psi))
-        got = complex(out["vf"][0], out["vf"][1])
-        if abs(want - got) > 1e-7:
-            return ("expectation-reversed" if c["rev"] else "expectation",
-                    f"get_expectation_value = {got}, quadratic form of the state with the operator's matrix = {want}")
-        return None
+        return _judge_expectation(c, out, want, scale)
     return None
+
+
+def _judge_expectation(c, out, want, scale):
+    got = complex(out["vf"][0], out["vf"][1])
+    if abs(want - got) > 1e-7 * scale:
+        return ("expectation-reversed" if c["rev"] else "expectation",
+                f"get_expectation_value(reverse_operator={c['rev']}) = {got}, quadratic form of the state with the operator's matrix = {want}")
+    for name, alt in sorted(out.get("alts", {}).items()):
+        if "vf" not in alt:
+            return ("expectation-raise", f"expectation(matrix, {name} state) raised: {alt}")
+        g = complex(alt["vf"][0], alt["vf"][1])
+        if abs(want - g) > 1e-7 * scale:
+            return ("expectation-" + name, f"expectation(matrix of the operator, {name} state) = {g}, quadratic form = {want}")
+    return None
+
+
+def _oracle_wide(c, out):
+    s = c["sum"]
+    width = _width(s)
+    api = c["api"]
+    n = width if c.get("n") is None else c["n"]
+    if "exc" in out:
+        return ("wide-raise", f"{api} raised on a {n}-qubit register: {out}")
+    a = _ref_entries(s, n)
+    scale = max([1.0] + [abs(v) for v in a.values()])
+    if api == "sparse":
+        if "entries" not in out or out["shape"] != [2 ** n, 2 ** n]:
+            return ("wide-sparse", f"get_sparse_operator on {n} qubits returned shape {out.get('shape')}")
+        got = {(r, col): complex(float(unrat(re)), float(unrat(im))) for r, col, re, im in out["entries"]}
+        diff = _ent_diff(got, a)
+        if diff > TOL * scale:
+            return ("wide-sparse", f"get_sparse_operator(op, {c.get('n')}) differs from the tensor-product definition on {n} qubits by {diff:.3g}")
+        return None
+    if api == "hc":
+        if "hc" not in out:
+            return ("wide-raise", f"hermitian_conjugated raised: {out}")
+        ah = {(col, r): v.conjugate() for (r, col), v in a.items()}
+        terms = _terms_from(out["hc"])
+        if _width(terms) > n:
+            return ("wide-hc", "hermitian conjugate acts on more qubits than the operator")
+        diff = _ent_diff(_ref_entries(terms, n), ah)
+        if diff > 1e-7 * scale:
+            return ("wide-hc", f"hermitian_conjugated(op) differs from the conjugate-transposed matrix by {diff:.3g} on {n} qubits")
+        if _is_simplified(s):
+            dev = _ent_diff(a, ah)
+            if dev <= 1e-12 and not out["herm"]:
+                return ("wide-herm-test", "is_hermitian is False but the matrix equals its conjugate transpose")
+            if dev >= 1e-3 and out["herm"]:
+                return ("wide-herm-test", f"is_hermitian is True but the matrix differs from its conjugate transpose by {dev:.3g}")
+        return None
+    if api == "reverse":
+        if "once" not in out:
+            return ("wide-raise", f"reverse_qubit_order raised for width {width}, n={n}: {out}")
+        t1, t2 = _terms_from(out["once"]), _terms_from(out["twice"])
+        if _width(t1) > n or _width(t2) > n:
+            return ("wide-reverse", "reversed operator acts outside the register")
+        br = [_bitrev(i, n) for i in range(2 ** n)]
+        want = {(br[r], br[col]): v for (r, col), v in a.items()}
+        d1 = _ent_diff(_ref_entries(t1, n), want)
+        if d1 > 1e-7 * scale:
+            return ("wide-reverse", f"reverse_qubit_order(op, {n}) is not the bit-reversal permutation of the matrix (diff {d1:.3g})")
+        d2 = _ent_diff(_ref_entries(t2, n), a)
+        if d2 > 1e-7 * scale:
+            return ("wide-reverse", f"reversing twice changes the operator on {n} qubits (diff {d2:.3g})")
+        return None
+    if api == "expect":
+        if "v" not in out:
+            return ("wide-raise", f"get_expectation_value raised on {n} qubits: {out}")
+        psi = {p: _amp_complex(amp) for p, amp in c["psi"]}
+        if c["rev"]:
+            a = {(_bitrev(r, n), _bitrev(col, n)): v for (r, col), v in a.items() if _bitrev(r, n) in psi}
+        want = sum((psi[r].conjugate() * v * psi[col] for (r, col), v in a.items() if r in psi and col in psi), 0j)
+        res = _judge_expectation(c, out, want, scale)
+        return ("wide-" + res[0], res[1] + f" ({n} qubits)") if res else None
+    return None
+
+
+def _oracle_session(c, out):
+    if "steps" not in out:
+        return ("session-raise", f"a history of calls raised: {out}")
+    eqs = _replay(c)
+    for i, (st, eq, o) in enumerate(zip(c["steps"], eqs, out["steps"])):
+        if eq is None:
+            if "exc" in o and st["do"] != "poison":
+                return None  # an edit of the harness's own objects was refused: the book-keeping ends here, no verdict
+            continue
+        res = _oracle_single(eq, o)
+        if res is None:
+            continue
+        hist = "; ".join(_describe(x) for x in c["steps"][:i])
+        if "seen" in o and o["seen"] != [_canon_spec(t) for t in eq["sum"]]:
+            return ("session-argument-modified",
+                    f"step {i} {_describe(st)}: {res[1]} — the operator no longer reads as it was built/edited by the caller "
+                    f"(now {o['seen']}): an earlier call changed its argument or shares state with a result. History: {hist}")
+        return ("session-" + res[0], f"step {i} {_describe(st)} after [{hist}] on the same objects: {res[1]}")
+    return None
+
+
+def oracle(c, out):
+    k = c["kind"]
+    if k == "session":
+        return _oracle_session(c, out)
+    if k == "wide":
+        return _oracle_wide(c, out)
+    return _oracle_single(c, out)
 
 
 def distribution(cases, outs):
     kinds = {}
+    steps = {}
     for c in cases:
         if c["kind"] in ("sparse", "reverse"):
             w = _width(c["sum"])
             n = w if c.get("n") is None else c["n"]
             key = f"{c['kind']}:n-width={n - w}"
             kinds[key] = kinds.get(key, 0) + 1
+        if c["kind"] == "session":
+            for st in c["steps"]:
+                steps[st["do"]] = steps.get(st["do"], 0) + 1
     return {
         "rejected_requests": sum(1 for o in outs if isinstance(o, dict) and o.get("err")),
         "inexact_cases": sum(1 for c in cases if not c.get("exact", True)),
@@ -713,8 +1640,12 @@ def distribution(cases, outs):
         "terms_with_Y_and_gap": sum(1 for c in cases for t in c.get("sum", [])
                                     if any(p == "Y" for _, p in t["ops"])
                                     and sorted(q for q, _ in t["ops"]) != list(range(len(t["ops"])))),
+        "z_only_operators": sum(1 for c in cases if c.get("sum") and all(p == "Z" for t in c["sum"] for _, p in t["ops"])),
         "padding_histogram": kinds,
+        "session_steps": steps,
+        "wide_cases": sum(1 for c in cases if c["kind"] == "wide"),
         "matrix_sizes": sorted({len(c["m"]) for c in cases if c["kind"] == "from_matrix"}),
+        "matrix_forms": sorted({c.get("form", "list") for c in cases if c["kind"] == "from_matrix"}),
         "hermitian_true": sum(1 for o in outs if isinstance(o, dict) and o.get("herm") is True),
         "hermitian_false": sum(1 for o in outs if isinstance(o, dict) and o.get("herm") is False),
     }
